@@ -107,7 +107,7 @@ theorem histogram_cells (d : Decl V) (bs : List (V × Str)) (hk : d.kind = .hist
     obtain ⟨name, kind, ln⟩ := d
     simp only at hk; subst hk
     cases a <;> simp [upd, callMethod] <;> try exact hR
-    simp [hR.1, hR.2, sumOf_snoc, List.foldl_append, Kind.bounds]
+    simp [hR.1, hR.2, sumOf_snoc, Kind.bounds]
 
 /-! ### info -/
 
@@ -122,8 +122,8 @@ theorem info_value (d : Decl V) (hk : d.kind = .info) (acts : List (Action V)) (
     simp only at hk; subst hk
     cases a with
     | info val =>
-      simp only [okAct, callMethod] at hoka
-      simp only [upd, callMethod]
+      simp only [okAct, callMethod, Bool.not_true, Bool.and_false, Bool.false_eq_true, if_false] at hoka
+      simp only [upd, callMethod, Bool.not_true, Bool.and_false, Bool.false_eq_true, if_false]
       split at hoka
       · simp at hoka
       · next h1 =>
